@@ -2,7 +2,10 @@
 """handler_translate.py -- vocabulary-lifting translator for the STATE HANDLERS of cat.c (the
 loop-free ones, and the helpers around them: the 2-bit lanes of the name-matching bitmap, the
 loops over the descriptor tables, the queue of unsolicited events, the public functions that take
-the mutex), and driver of the "handler tie": a Coq proof, re-checked on every run, that the Gallina
+the mutex; third pass: the two flush engines and the reader as functions of the answer of the io
+oracle, the starters of the printers, the list printer, parse_write_args / format_read_args /
+format_test_args around the typed decoders and formatters, the arguments of the handler calls,
+cat_init), and driver of the "handler tie": a Coq proof, re-checked on every run, that the Gallina
 definition GENERATED from the C source of a function equals the HAND-WRITTEN model function of
 coq/Fsm.v for ALL descriptors and ALL states.
 
@@ -60,7 +63,9 @@ Translation rules (everything else is refused: 'unsupported', never guessed)
         block: on failure the block yields `set_fault_flag s` and execution continues after the
         block (this is exactly where the model puts its `None => set_fault_flag s`);
       - stores into the working buffer are total: HandlerTieLib.store_c sets the flag when the
-        index is outside the buffer; helper calls are total (the model helpers set the flag).
+        index is outside the buffer; helper calls are total (the model helpers set the flag);
+      - a partial read that fails in an arm of a `switch` (other than the last one) sets the flag
+        and continues after the switch.
   * A call of a function of cat.c that is NOT in the mapping table (e.g. a helper introduced by
     a refactoring) is not guessed either: the callee is translated on the fly by the same rules,
     as g_aux_<name>, and called; it then belongs to the GENERATED side of the tie (class
@@ -95,6 +100,32 @@ Translation rules (everything else is refused: 'unsupported', never guessed)
   * After a fault at the top level of a function whose status varies the function answers
     (set_fault_flag s, HandlerTieLib.fault_status): the state is outside the verified envelope,
     the value only has to be fixed.
+  * ORACLE functions (ORACLE_FUNCTIONS: process_io_write, unsolicited_process_io_write, read_cmd_char,
+    parse_write_args, format_read_args) call the environment through a pointer (io->write, io->read,
+    var->write, var->read).  They are translated AS FUNCTIONS OF THE ORACLE'S ANSWER: an extra
+    parameter `ans` stands for what the call returns (for the two variable callbacks also `env`:
+    what the callback may do to the object while it runs, HandlerTieLib.cb_effect), and the result
+    is an oview = (None | Some (request, object when the call is made), final object, status).
+    One call site, at `if (CALL CMP literal)` or `if ((A) && (CALL CMP literal))`.  The model
+    functions are restated the same way in HandlerTie.v.in (<f>_view) and lemma <f>_is_view (static)
+    proves that running the view against the model's oracle (io_write / io_read / Fsm.call_h) IS the
+    model function.  Their ties are stated up to faults (onorm: equal, or the fault flag is set on
+    both sides) and up to the ghost counters gR / gL.
+  * In an oracle function the statements after a top-level `switch` with at least four cases are
+    generated as a definition of their own, g_<f>_kN (closure conversion: its extra parameters are
+    the C locals and D / ans / env / c it mentions); it is tied once (a lemma stated by hand in
+    HandlerTie.v.in) and the tie of the function rewrites with that lemma.
+  * self->var->f / self->unsolicited_fsm.var->f read the variable descriptor HandlerTieLib.var_of
+    finds (a partial read).  A function that BEGINS with self->cmd = get_command_by_index(self, e)
+    and then dereferences self->cmd reads the descriptor cmd_by_index finds (bound around the whole
+    body; HandlerTieLib.cmd_by_index_pool relates it to what self->cmd means in the model).
+    int64_t / uint64_t locals are Z / N; (uint64_t *)&x on an int64_t x and the conversion back are
+    explicit (HandlerTieLib.c_s64 / c_u64).
+  * The CALL of a command handler (the four loops and the two wrappers call_cmd_read_by_fsm /
+    call_cmd_test_by_fsm) is generated as a value of HandlerTieLib.hcall (which handler, on which
+    command, buffer pointer, size pointer, integers: see HANDLER_CALL_FIELDS) and tied to the
+    request the model builds (HandlerTie.v.in expected_*_call, hreq_of_call).
+  * cat_init: see INIT_FUNCTION in section 1.
   * The public functions that take the mutex: see API_FUNCTIONS in section 1.
   * Besides whole functions, three PARTS of functions are tied (see the tables of section 1):
       - POST_CALL_FUNCTIONS: the switch over the code returned by a command handler, as a function
@@ -136,7 +167,9 @@ COQ_TYPE = {"nat": "nat", "byte": "N", "lane": "N", "Z": "Z", "bool": "bool", "t
             "cstate": "cstate", "ustate": "ustate", "ctype": "ctype", "wstate": "wstate",
             "fsm": "fsm", "vaccess": "vaccess", "cmdrec": "cmd", "grp": "grp", "varrec": "var",
             "cmdidx": "nat", "ringref": "nat", "cmdptr": "option nat", "cmdrecopt": "option cmd",
-            "str": "list N", "vtype": "vtype"}
+            "str": "list N", "vtype": "vtype", "ask": "option (oreq * state)",
+            "i64": "Z", "u64": "N", "hcall": "hcall"}
+#   i64 / u64 (an int64_t / uint64_t VALUE: Z / N, its mathematical value)
 #   str (a NUL-terminated C string that is only printed: list N, its bytes without the NUL)
 
 # ---- fields of struct cat_object (self->F): kind, projection (read), setter (store) ----
@@ -215,6 +248,8 @@ VAR_FIELDS = {
     "access":    ("vaccess", "v_access {v}"),
     "type":      ("vtype",   "v_type {v}"),
     "data_size": ("nat",     "v_size {v}"),
+    "read":      ("fnptr",   "v_hread {v}"),      # callback pointers: only compared with NULL / called
+    "write":     ("fnptr",   "v_hwrite {v}"),     # (ORACLE CALLS below)
     # "name": an optional string (NULL = None): v->name != NULL, and v->name printed (partial)
 }
 # optional strings of the descriptors:  x->f == / != NULL  and  x->f used as a string (partial read)
@@ -356,12 +391,43 @@ PAIR_HELPERS = {
     "print_string_to_buf":  ("Z", "print_string_c {1} {s} {0}", ["str", "fsm"]),
     "hold_exit":            ("Z", "hold_exit {s} {0}", ["Z"]),
     "push_unsolicited_cmd": ("Z", "push_unsolicited_cmd D {s} {0} {1}", ["cmdidx", "ctype"]),
+    # the model functions seen as the C functions (HandlerTieLib.v): 0 / -1, BUSY / OK
+    "print_response_test":     ("Z", "print_response_test_c D {0} {s}", ["fsm"]),
+    "next_format_var_by_fsm":  ("Z", "next_format_var_c D {0} {s}", ["fsm"]),
+    "format_info_type":        ("Z", "format_info_type_c D {0} {s}", ["fsm"]),
+    "print_current_cmd_full_name": ("Z", "print_current_cmd_full_name_c D {0} {s}", ["str"]),
+    "cmd_list_next_cmd":       ("bool", "cmd_list_next_cmd D {s}", []),
+    # the two buffer decoders and the two range validators (tools/codec_translate.py): they store into
+    # the variable self->var points to and write self->write_size (HandlerTieLib.v)
+    "parse_buffer_hexadecimal": ("Z", "parse_bufhex_c D {s}", []),
+    "parse_buffer_string":      ("Z", "parse_bufstr_c D {s}", []),
+    "validate_int_range":       ("Z", "validate_int_c D {s} {0}", ["i64"]),
+    "validate_uint_range":      ("Z", "validate_uint_c D {s} {0}", ["u64"]),
+    # the five typed formatters (tools/format_translate.py ties each of them to Codec.fmt_var on a
+    # variable of the type it is dispatched for): HandlerTieLib.fmt_c T = fmt_var on the current
+    # variable read AS a variable of type T, run on the cursor of the machine; 0 / -1
+    "format_int_decimal":        ("Z", "fmt_c VInt D {0} {s}", ["fsm"]),
+    "format_uint_decimal":       ("Z", "fmt_c VUint D {0} {s}", ["fsm"]),
+    "format_num_hexadecimal":    ("Z", "fmt_c VHex D {0} {s}", ["fsm"]),
+    "format_buffer_hexadecimal": ("Z", "fmt_c VBufHex D {0} {s}", ["fsm"]),
+    "format_buffer_string":      ("Z", "fmt_c VBufStr D {0} {s}", ["fsm"]),
 }
+# helpers whose MODEL term does not store into k_cmd (HandlerTieLib.print_string_c_cmd): self->cmd may
+# be dereferenced after them through the descriptor bound when the function was entered
+CMD_PRESERVING_HELPERS = ("print_string_to_buf", "parse_int_decimal", "parse_uint_decimal",
+                          "parse_num_hexadecimal", "parse_buffer_hexadecimal", "parse_buffer_string",
+                          "validate_int_range", "validate_uint_range")
 # helpers with OUT-parameters (T *p, only written): result kind, model term of type
 # state * kind * option T1 * .. (None = *p not written), argument kinds, kinds of the out-parameters.
 # HandlerTieLib.pop_c is Fsm.pop_unsolicited_cmd seen that way.
 OUT_HELPERS = {
     "pop_unsolicited_cmd":  ("Z", "pop_c D {s}", [], ["cmdptr", "ctype"]),
+    # the three numeric decoders (tied by tools/codec_translate.py to Codec.parse_int / parse_uint /
+    # parse_hex on the text behind the cursor): HandlerTieLib.parse_*_c = that model function run on
+    # get_atcmd_buf(self) from self->position, the status as -1 / 0 / 1, *ret written on success only
+    "parse_int_decimal":     ("Z", "parse_int_c D {s}", [], ["i64"]),
+    "parse_uint_decimal":    ("Z", "parse_uint_c D {s}", [], ["u64"]),
+    "parse_num_hexadecimal": ("Z", "parse_hex_c D {s}", [], ["u64"]),
 }
 OUT_PARAM_KINDS = {"struct cat_command **": "cmdptr", "cat_cmd_type *": "ctype"}
 # pure helpers (called in expressions):  result kind,  model term,                 argument kinds
@@ -409,6 +475,33 @@ POINTER_VALUE_HELPERS = {
 #   strcpy(local char array, "LIT")  (LIT fits the array)                the local IS the string LIT
 LIBRARY_CALLS = ("strlen", "strncpy", "memset", "strcpy")
 
+# ---- ORACLE CALLS: calls through the pointers of the io interface and of the descriptor (the
+#      environment of the library).  A function that makes such a call (ORACLE_FUNCTIONS) is
+#      translated AS A FUNCTION OF THE ORACLE'S ANSWER: an extra parameter `ans` stands for what the
+#      call returns, and the function answers a triple (HandlerTieLib.oview)
+#          (None | Some (request, the object when the call was made),  final object,  returned status)
+#      The function may contain ONE call site, at one of the positions
+#          if (CALL CMP literal) ..        if ((A) && (CALL CMP literal)) ..   (A: no side effect)
+#      Requests (HandlerTieLib.oreq) and the kind of the answer:
+#        self->io->write(e)                         QIoWrite e      ans : Z  (the int returned)
+#        self->io->read(&self->current_char)        QIoRead         ans : option N  (None: returned 0 and
+#                                                   stored nothing; Some b: returned 1 after storing b)
+#        self->var->write(self->var, e)             QVarWrite e     ans : Z
+#        v->read(v),  v = get_var_by_fsm(self, F)   QVarRead F      ans : Z
+#      The two variable callbacks run application code, which may call the public API of the library
+#      and store into variables: the object after the call is HandlerTieLib.cb_apply env <object
+#      before>, for an arbitrary `env : cb_effect` (new variable memory, queue of events, hold exit
+#      status, fault flag: what Fsm.call_h can change; proved in HandlerTie.v.in, call_h_effect);
+#      in particular self->cmd / self->var still point where they did.
+ORACLE_FUNCTIONS = {          # C function: (answer kind, Coq type of `ans`, the callee may modify the object)
+    "process_io_write":             ("Z", "Z", False),
+    "unsolicited_process_io_write": ("Z", "Z", False),
+    "read_cmd_char":                ("optbyte", "option N", False),
+    "parse_write_args":             ("Z", "Z", True),
+    "format_read_args":             ("Z", "Z", True),
+}
+ASK_ID = "__ask__"            # pseudo local: the request made so far (option (oreq * state))
+
 # ---- what is translated (in this order) ----
 READING_STATES = ["error_state", "parse_prefix", "parse_command", "wait_read_acknowledge",
                   "wait_test_acknowledge", "process_idle_state", "parse_command_args"]
@@ -431,6 +524,21 @@ HANDLER_FUNCTIONS = [
     "pop_unsolicited_cmd", "check_unsolicited_buffers",
     "get_command_by_fsm", "cat_get_processed_command", "cat_is_unsolicited_event_buffered",
     "next_format_var_by_fsm", "print_response_test", "format_info_type",
+    # third pass.  Functions of the answer of an oracle (ORACLE_FUNCTIONS): the two flush engines,
+    # the reader
+    "process_io_write", "unsolicited_process_io_write", "read_cmd_char",
+    # the starters of the two printers
+    "start_processing_format_read_args", "start_processing_format_test_args",
+    # the list printer
+    "print_current_cmd_full_name", "print_cmd_list",
+    # the argument collector: the switch over the type of the variable, the variable write callback
+    # (an oracle), the comma / var_num / need_all_vars bookkeeping
+    "parse_write_args",
+    # the argument printers: the variable read callback (an oracle), the switch over the type of the
+    # variable, the hand-over to the read handler / the flush; the TEST text
+    "format_read_args", "format_test_args",
+    # the two wrappers around the read / test handler calls (see HANDLER_CALL_FIELDS)
+    "call_cmd_read_by_fsm", "call_cmd_test_by_fsm",
 ]
 
 ASSUMED_HELPERS = sorted(
@@ -446,6 +554,18 @@ POST_CALL_FUNCTIONS = ["process_write_loop", "process_run_loop", "process_read_l
                        "process_test_loop"]
 HANDLER_POINTER_CALLS = ("write", "run")          # switch (self->cmd->write(...)) / ->run(...)
 HANDLER_CALL_WRAPPERS = ("call_cmd_read_by_fsm", "call_cmd_test_by_fsm")
+# ---- the handler CALL itself (third pass): which handler is called on which command with which
+#      arguments, as a value of HandlerTieLib.hcall (generated as g_<f>_call : .. -> option hcall for
+#      the four loops, and as g_<wrapper> for the two wrappers, which are translated whole):
+#        X->write(X, (uint8_t*)get_atcmd_buf(self), L, I)       HC_write <X> B_atcmd L I
+#        X->run(X)                                              HC_run <X>
+#        X->read(X, (uint8_t*)BUF, &POS, SIZE)                  HC_read <X> <BUF> <POS> SIZE     (test: HC_test)
+#      X = self->cmd (k_cmd (k s)) or a local obtained from get_command_by_fsm(self, F) (g_cmd F s); the
+#      handler must be taken from the command that is passed as first argument.  BUF = get_atcmd_buf(self)
+#      (B_atcmd) / get_unsolicited_buf(self) (B_unsol); POS = &self->position (P_atcmd) /
+#      &self->unsolicited_fsm.position (P_unsol).  What these mean in the model (the hreq of Fsm.v: the
+#      text the buffer holds, Fsm.apply_edit for the size pointer) is HandlerTie.v.in, hreq_of_call.
+HANDLER_CALL_FIELDS = {"write": "HC_write", "run": "HC_run", "read": "HC_read", "test": "HC_test"}
 
 # ---- the two dispatching switches.  Each arm must have one of the shapes below; it becomes an
 #      entry (type HandlerTieLib.dispatch) of a table  state -> entry.  H_<f> is the constructor of
@@ -477,6 +597,20 @@ ENUM_VALUES = "enum_values"     # pseudo function: the numeric values of the Z-v
 API_FUNCTIONS = ["cat_is_busy", "cat_is_hold", "cat_is_unsolicited_buffer_full",
                  "cat_trigger_unsolicited_event", "cat_hold_exit"]
 SERVICE_BRACKET = "cat_service_bracket"
+# ---- cat_init (unit cat_init): see translate_init.  The function must consist of
+#          declarations and asserts (ignored; their lines are listed in the generated file)
+#          self->commands_num = 0;  for (i = 0; i < desc->cmd_group_num; i++) { cmd_group = desc->cmd_group[i];
+#              <asserts>  self->commands_num += cmd_group->cmd_num;  <a for loop of asserts> }
+#                                             g_cat_init_commands_num D : nat, tied to ncmds D (what
+#                                             OBJ_CONSTANTS maps self->commands_num to)
+#          self->desc = desc; self->io = io; self->mutex = mutex;      g_cat_init_env (the environment of
+#                                             the model: the descriptor D and the Section variables)
+#          everything else (stores to mapped fields, helper calls)     g_cat_init_body D s : state, tied to
+#                                             HandlerTie.v.in init_fields, which is what Fsm.init_state fixes
+#                                             for the fields cat_init writes
+INIT_FUNCTION = "cat_init"
+INIT_ENV_FIELDS = {"desc": "E_desc", "io": "E_io", "mutex": "E_mutex"}   # field: set from the parameter of that name
+
 DISPATCH_HANDLERS = {           # C function name -> takes a cat_fsm_type argument?
     "error_state": False, "process_idle_state": False, "parse_prefix": False,
     "parse_command": False, "update_command": False, "wait_read_acknowledge": False,
@@ -760,6 +894,7 @@ class FunctionTranslator:
         self.counter = {}
         self.uses_cmd_deref = False      # self->cmd->f seen: whole body under `match cmd_of ..`
         self.assigns_obj_cmd = False
+        self.lead_cmd_index = None       # e, when the function begins with self->cmd = get_command_by_index(self, e)
         self.mode = None                 # 'void' | 'const' | 'pair'
         self.const_status = None
         self.ret_kind = None
@@ -777,6 +912,7 @@ class FunctionTranslator:
         self.defined_in_tu = set()       # names of the functions DEFINED in the translation unit
         self.post = False                # POST_CALL_FUNCTIONS: the handler call is the parameter `code`
         self.post_used = False
+        self.post_call_term = None       # POST_CALL_FUNCTIONS: the handler call, a term of type option hcall
         self.aux = None                  # AuxRegistry: helpers of cat.c outside the mapping table
         self.call_override = {}          # clang id of a call already evaluated -> its value (Ex)
         self.local_rng = {}              # Coq name of a uint8_t local -> interval of its value
@@ -791,6 +927,10 @@ class FunctionTranslator:
         self.pre_defs = []               # definitions emitted before the function (loops)
         self.top_kb = None               # the continuation "end of the function"
         self.binders_all = []            # binders of the function's parameters (after D)
+        self.oracle = None               # ORACLE_FUNCTIONS entry: the function is translated as a
+                                         # function of the answer of the oracle it calls
+        self.oracle_sites = 0            # oracle call sites translated so far
+        self.ptr_origin = {}             # Coq name of a pointer local -> (helper it came from, fsm term)
 
     # ---- names -----------------------------------------------------------------------
     def fresh(self, base, bare_first=False):
@@ -833,6 +973,8 @@ class FunctionTranslator:
             refuse(node, "integer literal %d used where a %s is expected" % (n, kind))
         if ex.kind == "cmdidx" and kind == "cmdptr":  # a non-NULL command pointer
             return Ex("cmdptr", "Some %s" % par(ex.term))
+        if ex.kind == "cstr" and kind == "str":       # the name of a command, printed
+            return Ex("str", ex.term)
         if ex.kind == "lane" and kind == "byte":      # uint8_t -> char: the same byte
             return Ex("byte", ex.term)
         if ex.kind == "lane" and kind == "mint":      # integer promotion uint8_t -> int
@@ -946,9 +1088,21 @@ class FunctionTranslator:
                 t = self.fresh("t")
                 G.append(Guard("nth_error (cbuf %s) %s" % (s, par(i.term)), "None", "Some " + t))
                 return Ex("byte", t)
+            mb = strip_casts(base)
+            fb = self.field_of(mb) if mb.get("kind") == "MemberExpr" else None
+            if fb in (("obj", "write_buf"), ("uns", "write_buf")):
+                # self->write_buf[e]: the pointer is the new-line string or the machine's buffer
+                # (Defs.wbuf); Fsm.wbuf_char reads it, None = outside (a fault)
+                i = self.coerce(idx, self.ex(idx, s, env, G), "nat")
+                rec, proj, buf = ("k", "k_wbuf", "cbuf") if fb[0] == "obj" else ("u", "u_wbuf", "ubuf")
+                t = self.fresh("t")
+                G.append(Guard("wbuf_char (%s (%s %s)) (%s %s) %s" % (proj, rec, s, buf, s, par(i.term)),
+                               "None", "Some " + t))
+                return Ex("byte", t)
             b = self.ex(base, s, env, G)
             if b.kind != "cstr":
-                refuse(node, "array read that is not cmd->name[i] / get_atcmd_buf(self)[i]")
+                refuse(node, "array read that is not cmd->name[i] / get_atcmd_buf(self)[i] / "
+                             "self->write_buf[i]")
             i = self.coerce(idx, self.ex(idx, s, env, G), "nat")
             t = self.fresh("t")
             G.append(Guard("nth_error %s %s" % (par(b.term), par(i.term)), "None", "Some " + t))
@@ -994,6 +1148,13 @@ class FunctionTranslator:
                     refuse(node, "variable field '%s' is not in the mapping table" % name)
                 kk, tmpl = VAR_FIELDS[name]
                 return Ex(kk, tmpl.format(v=x, s=s))
+            if k is None and base.get("kind") == "ImplicitCastExpr":
+                b2 = strip_casts(base)
+                if b2.get("kind") == "MemberExpr" and self.field_of(b2) in (("obj", "var"), ("uns", "var")):
+                    if name not in VAR_FIELDS:          # self->var->f
+                        refuse(node, "variable field '%s' is not in the mapping table" % name)
+                    kk, tmpl = VAR_FIELDS[name]
+                    return Ex(kk, tmpl.format(v=self.self_var(b2, s, G), s=s))
             if k == "ringref":
                 if name not in ("cmd", "type"):
                     refuse(node, "field '%s' of a queue entry is not in the mapping table" % name)
@@ -1079,7 +1240,13 @@ class FunctionTranslator:
             args = self.call_args(node, name, kinds, s, env, G)
             t = self.fresh("t")
             G.append(Guard(tmpl.format(*args, s=s), "None", "Some " + t))
+            self.ptr_origin[t] = (name, args[0] if args else None)
             return Ex(k, t)
+        if name is None and self.oracle_callee(node):
+            refuse(node, "oracle call (through a pointer of the io interface / a variable callback) at "
+                         "a position other than `if (CALL CMP literal)` / `if ((A) && (CALL CMP literal))`")
+        if name in PAIR_HELPERS or name in OUT_HELPERS:
+            refuse(node, "call of '%s', which may modify *self, inside an expression" % name)
         if name == "strlen" and len(node["inner"]) == 2 and name not in self.defined_in_tu:
             a = self.ex(node["inner"][1], s, env, G)
             if a.kind == "cstr":
@@ -1297,6 +1464,15 @@ class FunctionTranslator:
         """Implicit/explicit integer conversions that involve uint8_t / char / int; None = the
         general rule (a widening that keeps the kind) applies."""
         dst = c_type_name(node)
+        if e.kind in ("i64", "u64"):
+            # int64_t <-> uint64_t: modulo 2^64 (C11 6.3.1.3p2) / the two's complement reading
+            if (e.kind, dst) in (("i64", "long"), ("u64", "unsigned long")):
+                return e
+            if (e.kind, dst) == ("i64", "unsigned long"):
+                return Ex("u64", "c_u64 %s" % par(e.term))
+            if (e.kind, dst) == ("u64", "long"):
+                return Ex("i64", "c_s64 %s" % par(e.term))
+            refuse(node, "conversion of a 64-bit value to %s" % dst)
         if dst == "unsigned char":
             if e.kind == "byte":                   # char -> uint8_t: the byte itself
                 return Ex("lane", "u8 (Z.of_N %s)" % par(e.term), rng=(0, 255))
@@ -1630,6 +1806,16 @@ class StatementTranslator(FunctionTranslator):
             refuse(node, "return without a value")
         if self.mode == "const":
             return s                                    # the value was checked by find_mode()
+        if self.mode == "opt" and self.ret_kind == "hcall":
+            # a wrapper around a handler call: `return <the call>;` answers the call; any other
+            # return (no handler is called) answers None
+            v = strip_casts(value_node)
+            if v.get("kind") == "CallExpr":
+                term, is_opt = self.handler_call_term(v, s, env, G)
+                if is_opt:
+                    refuse(node, "a wrapper that calls a wrapper")
+                return "Some (%s)" % term
+            return "(@None hcall)"
         if self.mode == "opt" and self.ret_kind in ("cmdrecopt", "cmdptr"):
             call = strip_casts(value_node)
             if call.get("kind") == "CallExpr" and self.callee_name(call) in POINTER_VALUE_HELPERS \
@@ -1645,7 +1831,12 @@ class StatementTranslator(FunctionTranslator):
             return e.term
         if self.mode == "opt":
             return "Some %s" % par(self.value(value_node, self.ret_kind, s, env, G))
-        return "(%s)" % ", ".join([s, self.value(value_node, self.ret_kind, s, env, G)] + self.outs(env))
+        return "(%s)" % ", ".join(self.ask(env) + [s, self.value(value_node, self.ret_kind, s, env, G)]
+                                   + self.outs(env))
+
+    def ask(self, env):
+        """Oracle functions: the request made so far is the first component of every result."""
+        return [env[ASK_ID][0]] if self.oracle is not None else []
 
     def none(self):
         """None at the result type of a pure function (explicit: it may be all a branch says)."""
@@ -1666,7 +1857,8 @@ class StatementTranslator(FunctionTranslator):
                 return self.none()
             if fault and self.mode == "pair" and self.ret_kind in self.FAULT_VALUE:
                 # outside the verified envelope: the flag is set, the value is a fixed default
-                return "(%s)" % ", ".join([st, self.FAULT_VALUE[self.ret_kind]] + self.outs(env))
+                return "(%s)" % ", ".join(self.ask(env) + [st, self.FAULT_VALUE[self.ret_kind]]
+                                           + self.outs(env))
             if fault:
                 raise Unsupported("partial read at the top level of a function whose "
                                   "returned status varies")
@@ -1697,6 +1889,8 @@ class StatementTranslator(FunctionTranslator):
         if not rest:
             return "", kb
         need = (local_reads(rest) | later) & local_writes([stmt]) & set(env)
+        if self.oracle is not None and self.has_oracle_site(stmt):
+            need = need | {ASK_ID}             # the statement may make the request
         params = sorted(need, key=lambda i: str(env[i][0] or "") + i)
         name, sN = self.fresh("kont"), self.fresh("s")
         inner_env, binders = dict(env), ["(%s : state)" % sN]
@@ -1713,8 +1907,23 @@ class StatementTranslator(FunctionTranslator):
         if text == sN and not params:              # nothing left to do: no continuation needed
             return "", Cont(lambda st, e, fault=False: st)
         let = "let %s := fun %s =>\n%s in\n" % (name, " ".join(binders), ind(text, 4))
+        hoisted = None
+        if self.oracle is not None and stmt.get("kind") == "SwitchStmt" and kb is self.top_kb \
+                and sum(1 for c in walk(stmt) if c.get("kind") == "CaseStmt") >= 4:
+            hoisted = self.hoist(text, env, binders)
+        if hoisted is not None:
+            # (the arms of the switch all end here: as a definition of its own the continuation is
+            #  tied once, and the tie of the function does not unfold it in every arm)
+            let, hname, hargs = "", hoisted[0], hoisted[1]
 
         def call(st, e, fault=False):
+            if hoisted is not None:
+                vals = []
+                for i in params:
+                    if e.get(i, (None,))[0] is None:
+                        raise Unsupported("local '%s' may be used uninitialised" % self.local_names[i])
+                    vals.append(par(e[i][0]))
+                return " ".join([hname] + hargs + [par(st)] + vals)
             if name in self.kont_needs:            # its body reads self->cmd->..: see cmdrec_of
                 root, same = self.origin.get(st, (None, False))
                 if not same:
@@ -1729,6 +1938,43 @@ class StatementTranslator(FunctionTranslator):
                 vals.append(par(e[i][0]))
             return " ".join([name, par(st)] + vals)
         return let, Cont(call)
+
+    def hoist(self, text, env, binders):
+        """Closure conversion of a continuation (text = its body, binders = its own parameters): a
+        Definition g_<f>_kN whose extra parameters are the names of the enclosing scope that the
+        body mentions.  -> (name, arguments at a call) or None (the body mentions a name that is
+        bound by an enclosing match / let: not hoisted)."""
+        own = set(re.findall(r"\((\S+) :", " ".join(binders)))
+        bound = set(re.findall(r"let '?\(?([\w']+)", text)) | set(re.findall(r"fun \((\S+) :", text)) \
+            | set(re.findall(r"Some ([\w']+) =>", text)) | own
+        for m in re.finditer(r"let '\(([^)]*)\)", text):
+            bound |= set(x.strip() for x in m.group(1).split(","))
+        for m in re.finditer(r"fun ((?:\([^)]*\)\s*)+)=>", text):
+            bound |= set(re.findall(r"\((\S+) :", m.group(1)))
+        words = set(re.findall(r"[A-Za-z_][\w']*", text))
+        extra, args = [], []
+        scope = {}
+        for i, (nm, kd) in env.items():
+            if nm is not None and re.fullmatch(r"[\w']+", nm):
+                scope[nm] = "option %s" % par(COQ_TYPE[kd]) if nm in self.optional_names else COQ_TYPE[kd]
+        for w in sorted(words - bound):
+            if w in scope:
+                extra.append("(%s : %s)" % (w, scope[w]))
+                args.append(w)
+            elif re.fullmatch(r"kont\d+|t\d+|o\d+|r\d+|s\d*|ask\d+|e\d+|l\d+|n\d+", w):
+                return None                  # a name of an enclosing scope that is not a C local
+        pre = ["(D : desc)"]
+        head = ["D"]
+        for w, ty in (("ch", "N"), ("code", "Z"), ("ans", self.oracle[1] if self.oracle else "Z"),
+                      ("env", "cb_effect"), ("c", "cmd")):
+            if w in words - bound and w not in scope:
+                pre.append("(%s : %s)" % (w, ty))
+                head.append(w)
+        n = self.fresh("k")[1:]
+        hname = "g_%s_k%s" % (self.gname_base, n)
+        self.pre_defs.append("Definition %s %s : %s :=\n%s.\n" % (
+            hname, " ".join(pre + extra + binders), self.rtype_text, ind(text)))
+        return hname, head[1:] and ["D"] + head[1:] + args or ["D"] + args
 
     # ---- blocks -----------------------------------------------------------------------------------
     def block(self, items, s, env, kb, kbrk, later):
@@ -1805,6 +2051,15 @@ class StatementTranslator(FunctionTranslator):
                 if d.get("init") != "c" or len(d["inner"]) != 1:
                     refuse(d, "local declaration other than `T x = e;`")
                 if d["id"] not in self.written_locals and self.constant_local(d):
+                    continue
+                call = strip_casts(d["inner"][0])
+                if call.get("kind") == "CallExpr" and self.is_stateful_callee(call):
+                    # T x = f(self, ..);  f returns a status and may modify *self
+                    text, s1, val, env1 = self.stateful_call(call, s, env, G)
+                    self.check_pure(S, s, s1)
+                    env, t2 = self.bind_local_ex(d["id"], k, self.coerce(d["inner"][0], val, k), env1)
+                    lets.append(text + t2)
+                    s = s1
                     continue
                 env, text = self.bind_local(d, d["id"], k, d["inner"][0], s, env, G)
                 lets.append(text)
@@ -2172,7 +2427,7 @@ class StatementTranslator(FunctionTranslator):
         table = {"size_t": "nat", "cat_status": "Z", "cat_return_state": "Z", "bool": "bool",
                  "_Bool": "bool", "cat_state": "cstate", "cat_unsolicited_state": "ustate",
                  "cat_cmd_type": "ctype", "cat_fsm_type": "fsm", "cat_var_access": "vaccess",
-                 "uint8_t": "lane", "char": "byte", "int": "Z",
+                 "uint8_t": "lane", "char": "byte", "int": "Z", "int64_t": "i64", "uint64_t": "u64",
                  "struct cat_command *": "cmdrec", "struct cat_command const *": "cmdrec",
                  "struct cat_command_group *": "grp", "struct cat_variable *": "varrec",
                  "struct cat_unsolicited_cmd *": "ringref"}
@@ -2251,9 +2506,22 @@ class StatementTranslator(FunctionTranslator):
                 fake["inner"] = [{"kind": "ImplicitCastExpr", "castKind": "LValueToRValue",
                                   "type": tgt.get("type", {}), "inner": [tgt]}, n["inner"][1]]
                 return text, s1, self.truth(fake, s1, env, G), env
+        def steps(x):
+            return any(c.get("kind") == "UnaryOperator" and c.get("opcode") in ("++", "--") for c in walk(x))
+        if n.get("kind") == "BinaryOperator" and n.get("opcode") in ("&&", "||") \
+                and steps(n["inner"][0]) and not steps(n["inner"][1]) and not self.has_oracle_site(n):
+            # (++F CMP e) && B : the left operand is always evaluated; B has no side effect
+            pre, s1, ca, env1 = self.condition(n["inner"][0], s, env, G)
+            G2 = list(G)
+            cb = self.truth(n["inner"][1], s1, env1, G2)
+            if len(G2) != len(G):
+                refuse(n["inner"][1], "partial read in the right operand of %s" % n["opcode"])
+            return pre, s1, "%s %s %s" % (opnd(ca), n["opcode"], opnd(cb)), env1
         for c in walk(n):
             if c.get("kind") == "UnaryOperator" and c.get("opcode") in ("++", "--"):
                 refuse(c, "side effect inside a condition (only `++self->f CMP e` is supported)")
+        if self.has_oracle_site(n):
+            return self.oracle_condition(n, s, env, G)
         call = self.leading_call(n)
         if call is not None and (self.callee_name(call) in PAIR_HELPERS or
                                  self.callee_name(call) in OUT_HELPERS):
@@ -2291,6 +2559,135 @@ class StatementTranslator(FunctionTranslator):
             n = strip(n["inner"][0])
         n = strip_casts(n)
         return n if n.get("kind") == "CallExpr" and self.callee_name(n) else None
+
+    # ---- oracle calls (see ORACLE_FUNCTIONS) ------------------------------------------------------
+    def oracle_callee(self, call):
+        """call = a CallExpr through a pointer of the io interface or a callback pointer of a
+        variable -> 'io_read' | 'io_write' | 'var_write' | 'var_read' ; else None."""
+        if call.get("kind") != "CallExpr" or not call.get("inner"):
+            return None
+        callee = strip_casts(call["inner"][0])
+        if callee.get("kind") != "MemberExpr" or not callee.get("isArrow"):
+            return None
+        base, name = strip_casts(callee["inner"][0]), callee.get("name")
+        if base.get("kind") == "MemberExpr" and base.get("name") == "io" and base.get("isArrow") \
+                and self.is_self(base["inner"][0]) and name in ("read", "write"):
+            return "io_" + name
+        if name in ("read", "write") and "struct cat_variable" in c_type_name(base):
+            return "var_" + name
+        return None
+
+    def has_oracle_site(self, node):
+        return any(self.oracle_callee(c) for c in walk(node) if c.get("kind") == "CallExpr")
+
+    def oracle_request(self, call, kind, s, env, G):
+        """-> (request: a term of type HandlerTieLib.oreq, value of the call expression (Ex),
+        None or the store the callee makes through its pointer argument: state term -> state term)."""
+        args = call["inner"][1:]
+        akind = self.oracle[0]
+        base = strip_casts(strip_casts(call["inner"][0])["inner"][0])
+        if kind == "io_write":
+            if len(args) != 1 or akind != "Z":
+                refuse(call, "self->io->write with an unexpected number of arguments / answer kind")
+            return "QIoWrite %s" % par(self.value(args[0], "byte", s, env, G)), Ex("Z", "ans"), None
+        if kind == "io_read":
+            a = strip_casts(args[0]) if len(args) == 1 else {}
+            tgt = strip(a["inner"][0]) if a.get("kind") == "UnaryOperator" and a.get("opcode") == "&" else {}
+            if akind != "optbyte" or tgt.get("kind") != "MemberExpr" \
+                    or self.field_of(tgt) != ("obj", "current_char"):
+                refuse(call, "self->io->read whose argument is not &self->current_char")
+            return ("QIoRead", Ex("Z", "match ans with Some _ => 1%Z | None => 0%Z end"),
+                    lambda st: "match ans with Some v => setk_char v %s | None => %s end" % (par(st), par(st)))
+        if akind != "Z":
+            refuse(call, "callback of a variable in a function whose oracle answers a %s" % akind)
+        if not args or not self.same_pointer(base, strip_casts(args[0])):
+            refuse(call, "callback of a variable that is not passed that variable as first argument")
+        if kind == "var_write":
+            if len(args) != 2 or self.field_of(base) != ("obj", "var"):
+                refuse(call, "variable write callback other than self->var->write(self->var, <size>)")
+            self.self_var(base, s, G)                 # self->var is dereferenced
+            return "QVarWrite %s" % par(self.value(args[1], "nat", s, env, G)), Ex("Z", "ans"), None
+        if kind == "var_read":
+            k, x = self.local_kind(base, env)
+            org = self.ptr_origin.get(x)
+            if len(args) != 1 or k != "varrec" or not org or org[0] != "get_var_by_fsm":
+                refuse(call, "variable read callback other than v->read(v) with v = get_var_by_fsm(self, F)")
+            return "QVarRead %s" % par(org[1]), Ex("Z", "ans"), None
+        refuse(call, "unsupported oracle call")
+
+    def same_pointer(self, a, b):
+        """Two pointer expressions that are the same local variable or the same field of self."""
+        if a.get("kind") == "DeclRefExpr" and b.get("kind") == "DeclRefExpr":
+            return a.get("referencedDecl", {}).get("id") == b.get("referencedDecl", {}).get("id")
+        if a.get("kind") == "MemberExpr" and b.get("kind") == "MemberExpr":
+            fa, fb = self.field_of(a), self.field_of(b)
+            return fa is not None and fa[0] in ("obj", "uns") and fa == fb
+        return False
+
+    def self_var(self, node, s, G):
+        """node = self->var / self->unsolicited_fsm.var used to reach the variable descriptor: the
+        model keeps the INDEX of the variable in the current command (HandlerTieLib.var_of)."""
+        f = self.field_of(node)
+        fsm = {"obj": "ATCMD", "uns": "UNSOL"}[f[0]]
+        scrut = "var_of D %s %s" % (fsm, s)
+        same = [g for g in G if g.scrut == scrut and g.fail_pat == "None"]
+        if same:
+            return same[0].ok_pat.split()[1]
+        t = self.fresh("t")
+        G.append(Guard(scrut, "None", "Some " + t))
+        return t
+
+    def oracle_condition(self, n, s, env, G):
+        """if (CALL CMP literal)  /  if ((A) && (CALL CMP literal)),  CALL an oracle call.
+        -> (let-text, state after the call, Coq bool, env)"""
+        if self.oracle is None:
+            refuse(n, "call through a pointer of the io interface / a variable callback in a function "
+                      "that is not translated as a function of the oracle's answer")
+        n = strip(n)
+        guard, test = None, n
+        if n.get("kind") == "BinaryOperator" and n.get("opcode") == "&&" \
+                and not self.has_oracle_site(n["inner"][0]):
+            guard, test = n["inner"][0], strip(n["inner"][1])
+        call = None
+        if test.get("kind") == "BinaryOperator" and test.get("opcode") in ("==", "!=", "<", "<=", ">", ">="):
+            lhs, rhs = strip_casts(test["inner"][0]), strip_casts(test["inner"][1])
+            if rhs.get("kind") == "UnaryOperator" and rhs.get("opcode") == "-":
+                rhs = strip_casts(rhs["inner"][0])
+            if rhs.get("kind") in ("IntegerLiteral", "CharacterLiteral") and self.oracle_callee(lhs):
+                call = lhs
+        if call is None:
+            refuse(n, "oracle call at a position other than `if (CALL CMP literal)` / "
+                      "`if ((A) && (CALL CMP literal))`")
+        if self.oracle_sites:
+            refuse(n, "more than one oracle call site")
+        self.oracle_sites += 1
+        gt = self.truth(guard, s, env, G) if guard is not None else None
+        n_guards = len(G)
+        req, val, store = self.oracle_request(call, self.oracle_callee(call), s, env, G)
+        if gt is not None and len(G) != n_guards:
+            refuse(call, "partial read in the arguments of a conditionally evaluated oracle call")
+        ask0 = env[ASK_ID][0]
+        made = "Some (%s, %s)" % (req, s)
+        ask1 = self.fresh("ask")
+        text = "let %s := %s in\n" % (ask1, made if gt is None else
+                                      "if %s then %s else %s" % (gt, made, ask0))
+        after = s
+        if self.oracle[2]:
+            after = "cb_apply env %s" % par(after)
+        if store is not None:
+            after = store(after)
+        s1 = s
+        if after != s:
+            s1 = self.same_cmd(s, self.fresh("s"))
+            text += "let %s := %s in\n" % (s1, after if gt is None else
+                                           "if %s then %s else %s" % (gt, after, s))
+        env1 = dict(env)
+        env1[ASK_ID] = (ask1, "ask")
+        self.call_override[call["id"]] = val
+        cond = self.truth(test, s1, env1, G)
+        if gt is not None:
+            cond = "%s && %s" % (opnd(gt), opnd(cond))
+        return text, s1, cond, env1
 
     # ---- effects ------------------------------------------------------------------------------------
     def setter(self, node, tgt):
@@ -2433,6 +2830,7 @@ class StatementTranslator(FunctionTranslator):
                 return text, s, env2
             if tgt.get("kind") == "ArraySubscriptExpr":
                 return self.buffer_store(n, tgt, rhs, s, env, G)
+            assigned_before = self.assigns_obj_cmd
             f, (k, proj, setter) = self.setter(n, tgt)
             if k in ("cmdptr", "wbuf", "varidx"):
                 v = self.pointer_store(n, f, k, rhs, s, env, G)
@@ -2441,6 +2839,13 @@ class StatementTranslator(FunctionTranslator):
             s1 = self.fresh("s")
             if f != ("obj", "cmd"):
                 self.same_cmd(s, s1)
+            elif s == "s" and self.pure and not G and v.startswith("Some ") and self.lead_cmd_index is None \
+                    and not self.uses_cmd_deref:
+                # FIRST statement  self->cmd = get_command_by_index(self, e) : from here on self->cmd->..
+                # reads the descriptor number e, bound around the whole body (translate_function)
+                self.lead_cmd_index = v[5:]
+                self.assigns_obj_cmd = assigned_before
+                self.origin[s1] = ("init", True)
             else:
                 self.origin[s1] = (self.origin.get(s, (None, False))[0], False)
             return "let %s := %s %s %s in\n" % (s1, setter, par(v), s), s1, env
@@ -2517,8 +2922,10 @@ class StatementTranslator(FunctionTranslator):
         r, s1 = self.fresh("r"), self.fresh("s")
         env = dict(env)
         if not outk:
-            text = "let %s := %s in\nlet %s := fst %s in\n" % (r, term, s1, r)
-            value = Ex(k, "snd %s" % r)
+            # (a pattern, not `let r := .. in .. fst r .. snd r`: the call is not duplicated when the
+            #  tie tactic unfolds the lets)
+            text = "let '(%s, %s) := %s in\n" % (s1, r, term)
+            value = Ex(k, r)
         else:
             onames = [self.fresh("o") for _ in outk]
             text = "let '(%s) := %s in\n" % (", ".join([s1, r] + onames), term)
@@ -2531,6 +2938,14 @@ class StatementTranslator(FunctionTranslator):
                 if did in env and env[did][1] == ok and did not in self.out_ids:
                     env[did] = (o, ok)
                     self.optional_names.add(o)
+                elif did in env and (env[did][1], ok) == ("i64", "u64") and did not in self.out_ids:
+                    # (uint64_t *)&val, val an int64_t: the callee stores a uint64_t into the object
+                    # (C11 6.5p7 allows the access); read back as int64_t it is the two's
+                    # complement reading of that value
+                    o2 = self.fresh("o")
+                    text += "let %s := option_map c_s64 %s in\n" % (o2, o)
+                    env[did] = (o2, "i64")
+                    self.optional_names.add(o2)
                 elif f and f[0] in ("obj", "uns"):
                     _, (fk, proj, setter) = self.setter(call, x)
                     if fk != ok:
@@ -2541,7 +2956,8 @@ class StatementTranslator(FunctionTranslator):
                     s1 = s2
                 else:
                     refuse(a, "out-argument that is neither &local nor &self->field")
-        self.origin[s1] = (self.origin.get(s, (None, False))[0], False)
+        self.origin[s1] = (self.origin.get(s, (None, False))[0],
+                           self.origin.get(s, (None, False))[1] and name in CMD_PRESERVING_HELPERS)
         return text, s1, value, env
 
     def fill_buffer(self, n, name, s, env, G):
@@ -2646,6 +3062,66 @@ class StatementTranslator(FunctionTranslator):
         base = self.field_of(strip_casts(f[2]))
         return base == ("obj", "cmd")
 
+    def handler_call_term(self, node, s, env, G):
+        """The call of a command handler as a term of type HandlerTieLib.hcall (see
+        HANDLER_CALL_FIELDS), or, for a call of one of the two wrappers, the call of the generated
+        wrapper (a term of type option hcall).  -> (term, is_option)"""
+        n = strip_casts(node)
+        name = self.callee_name(n)
+        if name in HANDLER_CALL_WRAPPERS:
+            args = self.call_args(n, name, ["fsm"], s, env, G)
+            return "g_%s D %s %s" % (name, args[0], s), True
+        callee = strip_casts(n["inner"][0])
+        if callee.get("kind") != "MemberExpr" or not callee.get("isArrow") \
+                or callee.get("name") not in HANDLER_CALL_FIELDS:
+            refuse(n, "not a call of a command handler")
+        base, args = strip_casts(callee["inner"][0]), n["inner"][1:]
+        if not args or not self.same_pointer(base, strip_casts(args[0])):
+            refuse(n, "the handler is not passed the command it is taken from as first argument")
+        if base.get("kind") == "MemberExpr" and self.field_of(base) == ("obj", "cmd"):
+            # self->cmd is dereferenced (by the call only: the translation of what follows the call
+            # is not put under `match cmd_of ..` because of it)
+            saved = self.uses_cmd_deref, set(self.kont_needs)
+            self.cmdrec_of(callee["inner"][0], s, env, G)
+            self.uses_cmd_deref, self.kont_needs = saved
+            self.call_derefs_cmd = True
+            x = "k_cmd (k %s)" % s
+        else:
+            k, nm = self.local_kind(base, env)
+            org = self.ptr_origin.get(nm)
+            if k != "cmdrec" or not org or org[0] != "get_command_by_fsm":
+                refuse(n, "handler called on a command that is neither self->cmd nor "
+                          "get_command_by_fsm(self, F)")
+            x = "g_cmd %s %s" % (org[1], s)
+        con, rest = HANDLER_CALL_FIELDS[callee["name"]], args[1:]
+
+        def buf(a):
+            a = strip_casts(a)
+            if self.is_self_call(a, "get_atcmd_buf"):
+                return "B_atcmd"
+            if self.is_self_call(a, "get_unsolicited_buf"):
+                return "B_unsol"
+            refuse(a, "buffer argument that is neither get_atcmd_buf(self) nor get_unsolicited_buf(self)")
+
+        def pos(a):
+            a = strip_casts(a)
+            tgt = strip(a["inner"][0]) if a.get("kind") == "UnaryOperator" and a.get("opcode") == "&" else {}
+            f = self.field_of(tgt) if tgt.get("kind") == "MemberExpr" else None
+            if f == ("obj", "position"):
+                return "P_atcmd"
+            if f == ("uns", "position"):
+                return "P_unsol"
+            refuse(a, "size pointer that is neither &self->position nor &self->unsolicited_fsm.position")
+        if con == "HC_run" and len(rest) == 0:
+            return "HC_run %s" % par(x), False
+        if con == "HC_write" and len(rest) == 3:
+            return "HC_write %s %s %s %s" % (par(x), buf(rest[0]), par(self.value(rest[1], "nat", s, env, G)),
+                                           par(self.value(rest[2], "nat", s, env, G))), False
+        if con in ("HC_read", "HC_test") and len(rest) == 3:
+            return "%s %s %s %s %s" % (con, par(x), buf(rest[0]), pos(rest[1]),
+                                       par(self.value(rest[2], "nat", s, env, G))), False
+        refuse(n, "handler call with an unexpected number of arguments")
+
     def switch(self, S, rest, s, env, kb, kbrk_outer, later):
         if S.get("hasInit") or S.get("hasVar") or len(S.get("inner", [])) != 2:
             refuse(S, "switch with initialiser/declaration")
@@ -2657,6 +3133,12 @@ class StatementTranslator(FunctionTranslator):
         if self.post and not self.post_used and s == "s" and self.is_handler_call(scrut_node):
             self.post_used = True
             e = Ex("Z", "code")
+            G2 = []                          # the call itself: g_<f>_call (see HANDLER_CALL_FIELDS)
+            term, is_opt = self.handler_call_term(scrut_node, s, env, G2)
+            term = term if is_opt else "Some (%s)" % term
+            for g in reversed(G2):
+                term = "match %s with\n| %s => None\n| %s =>\n%s\nend" % (g.scrut, g.fail_pat, g.ok_pat, ind(term))
+            self.post_call_term = term
         else:
             e = self.ex(scrut_node, s, env, G)
         if body.get("kind") != "CompoundStmt":
@@ -2687,6 +3169,8 @@ class StatementTranslator(FunctionTranslator):
         later2 = later | local_reads(rest)
 
         def fallthrough(st, env_, fault=False):
+            if fault:                      # a partial read failed in this arm: the flag is set and
+                return kc.call(st, env_, True)      # execution continues after the switch
             raise Unsupported("a case group of the switch at line %s can fall through into the "
                               "next one" % node_line(S))
         arm_texts, default_text, seen = [], None, set()
@@ -2748,7 +3232,7 @@ Local Open Scope nat_scope.
 
 PARAM_KINDS = {"cat_state": "cstate", "cat_unsolicited_state": "ustate", "cat_fsm_type": "fsm",
                "cat_status": "Z", "size_t": "nat", "uint8_t": "lane", "cat_cmd_type": "ctype",
-               "cat_var_access": "vaccess"}
+               "cat_var_access": "vaccess", "char *": "str"}      # const char *: a string that is printed
 
 
 def find_mode(tr, decl, body_items):
@@ -2760,6 +3244,9 @@ def find_mode(tr, decl, body_items):
         return
     if ret == "uint8_t":                  # pure and partial: state -> option N
         tr.mode, tr.ret_kind = "opt", "lane"
+        return
+    if tr.fn in HANDLER_CALL_WRAPPERS:    # pure: state -> option hcall
+        tr.mode, tr.ret_kind = "opt", "hcall"
         return
     if tr.fn in POINTER_RETURN:           # pure: state -> option cmd / option nat
         if not ret.endswith("*") or "struct cat_command" not in ret:
@@ -2780,7 +3267,8 @@ def find_mode(tr, decl, body_items):
                 v = strip_casts(n["inner"][0]) if n.get("inner") else {}
                 d = v.get("referencedDecl", {})
                 names.add(d.get("name") if d.get("kind") == "EnumConstantDecl" else None)
-    if len(names) == 1 and None not in names and ret == "cat_status" and tr.fn not in PAIR_FUNCTIONS:
+    if len(names) == 1 and None not in names and ret == "cat_status" and tr.fn not in PAIR_FUNCTIONS \
+            and tr.oracle is None:
         name = names.pop()
         if name not in ENUMERATORS:
             refuse(decl, "returned enumerator %s is not in the mapping table" % name)
@@ -2896,6 +3384,8 @@ def translate_function(fn, decls, defines_ok, defined_in_tu=frozenset(), aux=Non
                 pk = "cmdrec" if deref else "cmdidx"
             elif q in PARAM_KINDS:
                 pk = PARAM_KINDS[q]
+            elif fragment is not None and fragment[0] == "_body" and fn == INIT_FUNCTION:
+                continue                   # desc / io / mutex: not used by the translated statements
             else:
                 refuse(p, "parameter of unmapped type '%s'" % p.get("type", {}).get("qualType"))
             name = "p_" + p.get("name", "anon")
@@ -2915,6 +3405,13 @@ def translate_function(fn, decls, defines_ok, defined_in_tu=frozenset(), aux=Non
                     binders.append("(%s : %s)" % (name, COQ_TYPE[k]))
                     param_kinds.append(k)
         tr.written_locals = local_writes(items)
+        if fn in ORACLE_FUNCTIONS and as_aux is None and fragment is None:
+            tr.oracle = ORACLE_FUNCTIONS[fn]
+            env[ASK_ID] = ("ask0", "ask")
+            tr.local_names[ASK_ID] = "ask"
+            if sum(1 for c in walk(body) if c.get("kind") == "CallExpr" and tr.oracle_callee(c)) > 1:
+                raise Unsupported("more than one call through a pointer of the io interface / a "
+                                  "variable callback")
         post = fn in POST_CALL_FUNCTIONS and as_aux is None
         if post:
             tr.post = True
@@ -2938,6 +3435,10 @@ def translate_function(fn, decls, defines_ok, defined_in_tu=frozenset(), aux=Non
             if tr.mode != "pair":
                 raise Unsupported("out-parameters in a function that does not return a varying status")
             rtype += "".join(" * option %s" % par(COQ_TYPE[env[i][1]]) for i in tr.out_ids)
+        if tr.oracle is not None:
+            if tr.mode != "pair" or tr.ret_kind != "Z" or tr.out_ids:
+                raise Unsupported("a function that calls an oracle must return a status / an int")
+            rtype = "option (oreq * state) * state * Z"
         tr.rtype_text = rtype
         tr.top_kb = tr.function_end()
         term = tr.block(items, "s", env, tr.top_kb, None, set(tr.out_ids))
@@ -2945,20 +3446,36 @@ def translate_function(fn, decls, defines_ok, defined_in_tu=frozenset(), aux=Non
             if tr.assigns_obj_cmd:
                 raise Unsupported("the function both dereferences and assigns self->cmd")
             fault = "set_fault_flag s" if tr.mode != "pair" else None
+            if tr.mode == "pair" and tr.ret_kind in tr.FAULT_VALUE and not tr.out_ids:
+                # outside the verified envelope: the flag is set, the value is a fixed default
+                fault = "(%s)" % ", ".join(tr.ask(env) + ["set_fault_flag s", tr.FAULT_VALUE[tr.ret_kind]])
             if fault is None:
                 raise Unsupported("self->cmd dereferenced in a function whose status varies")
-            term = "match cmd_of D ATCMD s with\n| None => %s\n| Some c =>\n%s\nend" % (fault, ind(term))
+            scrut = "cmd_of D ATCMD s" if tr.lead_cmd_index is None else \
+                "cmd_by_index (d_groups D) %s" % tr.lead_cmd_index
+            term = "match %s with\n| None => %s\n| Some c =>\n%s\nend" % (scrut, fault, ind(term))
+        if tr.oracle is not None:
+            term = "let ask0 := @None (oreq * state) in\n" + term
         first, last = node_line(d), d.get("range", {}).get("end", {})
         last = last.get("expansionLoc", last).get("line")
         if post and not tr.post_used:
             raise Unsupported("the handler call was not found where it is expected")
         ch = ["(ch : N)"] if reading else ["(code : Z)"] if post else []
+        if tr.oracle is not None:
+            ch = ["(ans : %s)" % tr.oracle[1]] + (["(env : cb_effect)"] if tr.oracle[2] else [])
         text = "(* cat.c:%s-%s  %s *)\n%sDefinition %s %s : %s :=\n%s.\n" % (
             first, last, d.get("type", {}).get("qualType", "").replace("*)", "* )"),
             "".join(tr.pre_defs), gname,
             " ".join(["(D : desc)"] + binders + ch + ["(s : state)"]), rtype, ind(term))
         if tr.mode == "const":
             text += "Definition %s_status : Z := %s.\n" % (gname, tr.const_status)
+        if post and tr.post_call_term is not None:
+            call = tr.post_call_term
+            if getattr(tr, "call_derefs_cmd", False):
+                call = "match cmd_of D ATCMD s with\n| None => None\n| Some c =>\n%s\nend" % ind(call)
+            text += "(* the call of the command handler: which handler, on which command, with which arguments *)\n" \
+                    "Definition g_%s_call %s : option hcall :=\n%s.\n" % (
+                        fn, " ".join(["(D : desc)"] + binders + ["(s : state)"]), ind(call))
         return text, {"status": "translated", "coq_name": gname, "c_name": fn, "lines": [first, last],
                       "mode": tr.mode, "const_status": tr.const_status, "ret_kind": tr.ret_kind,
                       "param_kinds": param_kinds, "pure": tr.pure,
@@ -3150,6 +3667,152 @@ def translate_api(fn, decls, defines_ok, defined_in_tu, aux, service=False):
         return None, {"status": "unsupported", "why": "unexpected AST shape: %r" % (e,)}
 
 
+def translate_init(fn, decls, defines_ok, defined_in_tu, aux):
+    """cat_init (see INIT_FUNCTION in section 1).  -> (coq text or None, report entry)."""
+    if not decls:
+        return None, {"status": "missing"}
+    try:
+        if len(decls) != 1:
+            raise Unsupported("several definitions named %s" % fn)
+        d = decls[0]
+        tr = StatementTranslator(fn, d, defines_ok, False)
+        params = [c for c in d["inner"] if c.get("kind") == "ParmVarDecl"]
+        body = [c for c in d["inner"] if c.get("kind") == "CompoundStmt"][0]
+        if not params or params[0].get("type", {}).get("qualType") != "struct cat_object *":
+            refuse(d, "first parameter is not `struct cat_object *self`")
+        tr.self_id = params[0]["id"]
+        pid = {p.get("name"): p["id"] for p in params[1:]}
+
+        def is_param(n, name):
+            n = strip_casts(n)
+            return n.get("kind") == "DeclRefExpr" and n.get("referencedDecl", {}).get("id") == pid.get(name)
+
+        def self_field(n):
+            n = strip(n)
+            return n.get("name") if n.get("kind") == "MemberExpr" and n.get("isArrow") \
+                and tr.is_self(n["inner"][0]) else None
+
+        def only_asserts(stmts):
+            for x in stmts:
+                if x.get("kind") == "NullStmt" or is_assert(x):
+                    continue
+                if x.get("kind") == "CompoundStmt" and only_asserts(x.get("inner", [])):
+                    continue
+                if x.get("kind") == "IfStmt" and len(x["inner"]) in (2, 3) and not x.get("hasInit") \
+                        and not x.get("hasVar") and not any(
+                            c.get("kind") in ("CallExpr", "CompoundAssignOperator") or
+                            (c.get("kind") == "BinaryOperator" and c.get("opcode") == "=") or
+                            (c.get("kind") == "UnaryOperator" and c.get("opcode") in ("++", "--"))
+                            for c in walk(x["inner"][0])) and only_asserts(x["inner"][1:]):
+                    continue
+                if x.get("kind") == "ForStmt" and len(x.get("inner", [])) == 5 and only_asserts([x["inner"][4]]) \
+                        and not any(c.get("kind") == "DeclRefExpr" and
+                                    c.get("referencedDecl", {}).get("id") == tr.self_id
+                                    for part in x["inner"][:4] if part for c in walk(part)):
+                    continue          # a loop whose body only asserts and whose header does not mention self
+                return False
+            return True
+
+        asserts, env_fields, rest_stmts = [], [], []
+        count_zeroed, count_loop = None, None
+        for item in body.get("inner", []):
+            if is_assert(item):
+                asserts.append(node_line(item) or 0)
+                continue
+            if item.get("kind") == "DeclStmt" and all(
+                    c.get("kind") == "VarDecl" and not c.get("inner") for c in item.get("inner", [])):
+                continue                                    # locals without initialiser
+            n = strip(item)
+            if n.get("kind") == "BinaryOperator" and n.get("opcode") == "=":
+                f = self_field(n["inner"][0])
+                if f == "commands_num":
+                    z = strip_casts(n["inner"][1])
+                    if z.get("kind") != "IntegerLiteral" or z.get("value") != "0" or count_zeroed is not None \
+                            or count_loop is not None:
+                        refuse(item, "self->commands_num is assigned something else than 0, or twice, "
+                                     "or after the counting loop")
+                    count_zeroed = node_line(item)
+                    continue
+                if f in INIT_ENV_FIELDS:
+                    if not is_param(n["inner"][1], f):
+                        refuse(item, "self->%s is not set from the parameter %s" % (f, f))
+                    env_fields.append(INIT_ENV_FIELDS[f])
+                    continue
+            if item.get("kind") == "ForStmt" and count_loop is None and count_zeroed is not None:
+                init, _, cond, inc, lbody = (item.get("inner", []) + [None] * 5)[:5]
+                init, cond, inc = (strip(x) if x else {} for x in (init, cond, inc))
+                ok = init.get("kind") == "BinaryOperator" and init.get("opcode") == "=" and \
+                    strip_casts(init["inner"][1]).get("value") == "0"
+                iid = strip(init["inner"][0]).get("referencedDecl", {}).get("id") if ok else None
+                ok = ok and iid is not None and cond.get("kind") == "BinaryOperator" and cond.get("opcode") == "<" \
+                    and strip_casts(cond["inner"][0]).get("referencedDecl", {}).get("id") == iid
+                if ok:
+                    b = strip_casts(cond["inner"][1])
+                    ok = b.get("kind") == "MemberExpr" and b.get("name") == "cmd_group_num" and b.get("isArrow") \
+                        and is_param(b["inner"][0], "desc")
+                ok = ok and inc.get("kind") == "UnaryOperator" and inc.get("opcode") == "++" and \
+                    strip(inc["inner"][0]).get("referencedDecl", {}).get("id") == iid
+                if not ok:
+                    refuse(item, "the loop is not `for (i = 0; i < desc->cmd_group_num; i++)`")
+                stmts = lbody.get("inner", []) if lbody.get("kind") == "CompoundStmt" else [lbody]
+                gid, added, others = None, 0, []
+                for x in stmts:
+                    m = strip(x)
+                    if m.get("kind") == "BinaryOperator" and m.get("opcode") == "=" and gid is None and not added:
+                        tgt, rhs = strip(m["inner"][0]), strip_casts(m["inner"][1])
+                        if tgt.get("kind") == "DeclRefExpr" and rhs.get("kind") == "ArraySubscriptExpr":
+                            arr, idx = strip_casts(rhs["inner"][0]), strip_casts(rhs["inner"][1])
+                            if arr.get("kind") == "MemberExpr" and arr.get("name") == "cmd_group" \
+                                    and arr.get("isArrow") and is_param(arr["inner"][0], "desc") \
+                                    and idx.get("referencedDecl", {}).get("id") == iid:
+                                gid = tgt.get("referencedDecl", {}).get("id")
+                                continue
+                    if m.get("kind") == "CompoundAssignOperator" and m.get("opcode") == "+=" \
+                            and self_field(m["inner"][0]) == "commands_num" and gid is not None:
+                        r = strip_casts(m["inner"][1])
+                        if r.get("kind") == "MemberExpr" and r.get("name") == "cmd_num" and r.get("isArrow") and \
+                                strip_casts(r["inner"][0]).get("referencedDecl", {}).get("id") == gid:
+                            added += 1
+                            continue
+                    others.append(x)
+                if gid is None or added != 1 or not only_asserts(others):
+                    refuse(item, "the body of the counting loop is not `cmd_group = desc->cmd_group[i]; "
+                                 "<asserts> self->commands_num += cmd_group->cmd_num; <loops of asserts>`")
+                for x in others:
+                    asserts.extend(node_line(c) or 0 for c in walk(x) if is_assert(c))
+                count_loop = node_line(item)
+                continue
+            for c in walk(item):
+                if c.get("kind") == "MemberExpr" and c.get("name") in ("commands_num",) + tuple(INIT_ENV_FIELDS) \
+                        and tr.is_self(c["inner"][0]):
+                    refuse(item, "self->%s is used in an unexpected way" % c.get("name"))
+            rest_stmts.append(item)
+        if count_loop is None:
+            refuse(d, "the loop that counts the commands was not found")
+        first = node_line(d)
+        last = d.get("range", {}).get("end", {})
+        last = last.get("expansionLoc", last).get("line")
+        text = ("(* cat.c:%s-%s  cat_init.  asserts ignored (lines): %s *)\n"
+                "(* the value the counting loop (line %s) leaves in self->commands_num *)\n"
+                "Definition g_cat_init_commands_num (D : desc) : nat :=\n"
+                "  fold_left (fun (acc : nat) (g : grp) => acc + length (grp_cmds g)) "
+                "(enum_groups (d_groups D) 0 0) 0.\n"
+                "(* the environment pointers that are set from the parameter of the same name *)\n"
+                "Definition g_cat_init_env : list env_field := [%s].\n"
+                % (first, last, ", ".join(map(str, sorted(set(asserts)))), count_loop,
+                   "; ".join(sorted(set(env_fields)))))
+        btext, rep = translate_function(fn, decls, defines_ok, defined_in_tu, aux=aux,
+                                        fragment=("_body", rest_stmts, []))
+        if rep["status"] != "translated":
+            raise Unsupported("the field initialisations: %s" % rep.get("why", rep["status"]))
+        return text + btext, {"status": "translated", "coq_name": "g_cat_init_body",
+                              "lines": [first, last], "mode": "init", "const_status": None}
+    except Unsupported as e:
+        return None, {"status": "unsupported", "why": str(e)}
+    except (KeyError, IndexError, TypeError, ValueError, AttributeError) as e:
+        return None, {"status": "unsupported", "why": "unexpected AST shape: %r" % (e,)}
+
+
 def translate_dispatch(fn, decls):
     """The dispatching switch of cat_service / unsolicited_events_service as a table."""
     if not decls:
@@ -3290,7 +3953,7 @@ def translate(repo_src_dir, functions=None):
     """Translate the handler functions of <repo_src_dir>/cat.c.
     -> (coq_text, report); report[fn]['status'] in {'translated','unsupported','missing'}."""
     functions = HANDLER_FUNCTIONS + POST_CALL_FUNCTIONS + list(DISPATCH_FUNCTIONS) + [ENUM_VALUES] \
-        + API_FUNCTIONS + [SERVICE_BRACKET] if functions is None else functions
+        + API_FUNCTIONS + [SERVICE_BRACKET, INIT_FUNCTION] if functions is None else functions
     src = os.path.join(repo_src_dir, "cat.c")
     header = GEN_HEADER % {"source": src, "lp": GEN_LOGICAL_PATH}
     defs, enums, err = load_translation_unit(repo_src_dir)
@@ -3302,6 +3965,8 @@ def translate(repo_src_dir, functions=None):
     for fn in functions:
         if fn == ENUM_VALUES:
             text, report[fn] = translate_enum_values(enums)
+        elif fn == INIT_FUNCTION:
+            text, report[fn] = translate_init(fn, defs.get(fn, []), defines_ok, frozenset(defs), aux)
         elif fn in DISPATCH_FUNCTIONS:
             text, report[fn] = translate_dispatch(fn, defs.get(fn, []))
         elif fn in API_FUNCTIONS or fn == SERVICE_BRACKET:
@@ -3311,6 +3976,14 @@ def translate(repo_src_dir, functions=None):
         else:
             text, report[fn] = translate_function(fn, defs.get(fn, []), defines_ok, frozenset(defs),
                                                   aux=aux)
+        if text:
+            for w in HANDLER_CALL_WRAPPERS:
+                if re.search(r"\bg_%s\b" % w, text) and fn != w and \
+                        report.get(w, {}).get("status") != "translated":
+                    text, report[fn] = None, {
+                        "status": "unsupported",
+                        "why": "the handler is called through %s, which is not translated" % w}
+                    break
         if text:
             texts.append(text)
             report[fn]["auxiliary"] = sorted(n for n in aux.coq_names()
@@ -3472,8 +4145,12 @@ def run_handler_tie(repo_src_dir, workdir, coq_dir, template_path=None, tie_src_
     tie = res["files"]["tie"]
     write(tie, assemble(segs, todo))
     cpus = os.cpu_count() or 1
-    weight = {"set_cmd_state": 6, "get_cmd_state": 4,          # the exhaustive sweeps
-              "format_info_type": 8, "update_command": 3, "search_command": 2}
+    weight = {"set_cmd_state": 8, "get_cmd_state": 2,          # the exhaustive sweeps
+              "format_info_type": 6, "update_command": 3, "search_command": 2,
+              "parse_write_args": 24, "print_cmd_list": 9, "parse_command_args": 4,
+              "print_response_test": 3, "start_processing_format_test_args": 3,
+              "start_processing_format_read_args": 2, "print_current_cmd_full_name": 2,
+              "format_read_args": 3, "process_read_loop": 2, "process_test_loop": 2}
     nparts = max(1, min(8, cpus // 2, len(todo)))
     parts, load = [[] for _ in range(nparts)], [0] * nparts
     for f in sorted(todo, key=lambda f: -weight.get(f, 1)):
